@@ -211,7 +211,8 @@ theorem constructors_read_only_where_allowed :
     documented necessity: `tail` needs the end of the table; the hash joins and hash set operations read their build
     side (right table / second table) completely before streaming the other; `crossjoin` materialises its inputs
     (itertools.product); `aggregate(key=None, len)` counts the rows; the external sort reads one buffer at a time;
-    `recast` and `unpackdict` sample `samplesize` rows to discover the output fields.  Every other generator function
+    `recast` and `unpackdict` sample `samplesize` rows to discover the output fields, `fromdicts` samples `sample` dicts
+    to discover the header (since petl dd7a99f with an explicit `list(islice(...))`; before, hidden in `iterpeek`).  Every other generator function
     of petl/transform, util/{base,materialise,timing,vis,lookups} and the text-format readers contains no such site. -/
 def allowedMaterialise : List (String × String × String) := [
   ("transform.basics.itertail", "full", "loop-without-yield"),
@@ -223,7 +224,8 @@ def allowedMaterialise : List (String × String × String) := [
   ("transform.setops.iterhashintersection", "full", "Counter(genexp)"),
   ("transform.reshape.iterrecast", "bounded", "loop-without-yield(islice)"),
   ("transform.sorts.SortView._iternocache", "bounded", "list(islice)"),
-  ("transform.unpacks.iterunpackdict", "bounded", "list(islice)")]
+  ("transform.unpacks.iterunpackdict", "bounded", "list(islice)"),
+  ("io.json.iterdicts", "bounded", "list(islice)")]
 
 theorem iterators_materialise_only_where_allowed :
     ∀ m ∈ Gen.materialisations, allowedMaterialise.contains (m.fn, m.kind, m.callee) = true := by
